@@ -9,6 +9,7 @@ import (
 	"github.com/aukilabs/hagall-common/messages/hagallpb"
 	"github.com/aukilabs/hagall-common/messages/odalpb"
 	"github.com/aukilabs/hagall-common/messages/vikjapb"
+	"google.golang.org/protobuf/types/known/timestamppb"
 
 	"verif/internal/check"
 	d "verif/internal/driver"
@@ -40,7 +41,7 @@ func (c StepCase) String() string {
 	return fmt.Sprintf("%s parked at pass %d of %s", c.Victim, c.Skip+1, c.Site)
 }
 
-var StepVictims = []string{"join", "leave", "switch", "delete", "lastleave", "create"}
+var StepVictims = []string{"join", "leave", "switch", "delete", "lastleave", "create", "compadd-vs-delete", "compadd-vs-leave", "action-vs-delete", "action-vs-leave"}
 
 // stepSiteOK: points on the victim's own path; points that every connection
 // or the frame worker pass all the time would park somebody else.
@@ -50,7 +51,7 @@ func stepSiteOK(s string) bool {
 	}
 	for _, p := range []string{"models.", "vikja.", "odal.", "dagaz.", "modules.",
 		"websocket.RealtimeHandler.HandleParticipantJoin", "websocket.RealtimeHandler.HandleDisconnect", "websocket.RealtimeHandler.leaveSession",
-		"websocket.RealtimeHandler.HandleEntityDelete", "websocket.handler.disconnect", "websocket.handler.handleDisconnect", "websocket.handler.Handle#",
+		"websocket.RealtimeHandler.HandleEntityDelete", "websocket.RealtimeHandler.HandleEntityComponentAdd", "websocket.RealtimeHandler.HandleWithModule", "websocket.handler.disconnect", "websocket.handler.handleDisconnect", "websocket.handler.Handle#",
 		"websocket.handlerWithLogs.HandleParticipantJoin", "websocket.handlerWithLogs.HandleDisconnect", "websocket.handlerWithMetrics.HandleParticipantJoin", "websocket.handlerWithMetrics.HandleDisconnect"} {
 		if strings.HasPrefix(s, p) {
 			return true
@@ -65,10 +66,12 @@ type stepEnv struct {
 	sid      string
 	oldSID   string // switch: the session the victim leaves (and thereby ends)
 	oldUUID  string
-	t        uint32
+	t, t2    uint32
 	e0, eDel uint32
 	vNP, vP  uint32 // victim's non-persistent and persistent entity
 	base     float64
+	o        *scen.C // attach victims: the owner of entity eO, which deletes it / leaves while the victim attaches to it
+	eO       uint32
 	// set by interfere
 	eN     uint32
 	n      *scen.C // newcomer to sid (kept: second witness)
@@ -81,7 +84,7 @@ type stepEnv struct {
 
 func (en *stepEnv) all() []*scen.C {
 	out := []*scen.C{}
-	for _, c := range append([]*scen.C{en.v, en.w, en.m, en.n, en.x, en.n2, en.c1, en.c2}, en.extra...) {
+	for _, c := range append([]*scen.C{en.v, en.w, en.m, en.o, en.n, en.x, en.n2, en.c1, en.c2}, en.extra...) {
 		if c != nil {
 			out = append(out, c)
 		}
@@ -110,6 +113,8 @@ func stepSetup(p *sut.Proc, victim string) *stepEnv {
 	en.sid = m.SID
 	en.t, err = m.AddType("step-type")
 	must(err)
+	en.t2, err = m.AddType("step-type-2")
+	must(err)
 	en.e0, err = m.AddEntity(true, 1)
 	must(err)
 	en.eDel, err = m.AddEntity(true, 2)
@@ -126,6 +131,8 @@ func stepSetup(p *sut.Proc, victim string) *stepEnv {
 	must(err)
 	_, err = w.Subscribe(en.t)
 	must(err)
+	_, err = w.Subscribe(en.t2)
+	must(err)
 	v := scen.MustDial(p, "vod")
 	en.v = v
 	switch victim {
@@ -136,6 +143,19 @@ func stepSetup(p *sut.Proc, victim string) *stepEnv {
 		_, _, err = x.Join(en.sid)
 		must(err)
 		_, err = x.AddEntity(false, 7)
+		must(err)
+	case "compadd-vs-delete", "compadd-vs-leave", "action-vs-delete", "action-vs-leave":
+		_, _, err = v.Join(en.sid)
+		must(err)
+		o := scen.MustDial(p, "vod")
+		en.o = o
+		_, _, err = o.Join(en.sid)
+		must(err)
+		en.eO, err = o.AddEntity(false, 5)
+		must(err)
+		_, err = o.AddComp(en.t, en.eO, "oc")
+		must(err)
+		_, err = o.Action(en.eO, "oa", 1_700_000_002, "o")
 		must(err)
 	case "create":
 	case "lastleave":
@@ -182,6 +202,11 @@ func (en *stepEnv) fire(victim string) {
 		must(v.Send(&hagallpb.ParticipantJoinRequest{Type: d.TJoinReq, Timestamp: d.NewTag(), RequestId: v.NextReqID()}))
 	case "leave", "lastleave":
 		v.Close()
+	case "compadd-vs-delete", "compadd-vs-leave":
+		must(v.Send(&hagallpb.EntityComponentAddRequest{Type: d.TCompAddReq, Timestamp: d.NewTag(), RequestId: v.NextReqID(), EntityComponentTypeId: en.t2, EntityId: en.eO, Data: []byte("late")}))
+	case "action-vs-delete", "action-vs-leave":
+		must(v.Send(&vikjapb.EntityActionRequest{Type: d.TActionReq, Timestamp: d.NewTag(), RequestId: v.NextReqID(),
+			EntityAction: &vikjapb.EntityAction{EntityId: en.eO, Name: "late", Timestamp: &timestamppb.Timestamp{Seconds: 1_700_000_300}, Data: []byte("late")}}))
 	case "delete":
 		must(v.Send(&hagallpb.EntityDeleteRequest{Type: d.TEntityDelReq, Timestamp: d.NewTag(), RequestId: v.NextReqID(), EntityId: en.vNP}))
 	}
@@ -251,6 +276,16 @@ func (en *stepEnv) interfere(victim string) (err error) {
 	if err = m.Custom([]byte("step-custom")); err != nil {
 		return
 	}
+	if victim == "delete" || victim == "leave" {
+		// attachments aimed at the entity the victim is removing: accepted or
+		// refused, they must not outlive the entity
+		if _, err = m.AddComp(en.t2, en.vNP, "late"); err != nil {
+			return
+		}
+		if _, err = m.Action(en.vNP, "late", 1_700_000_200, "z"); err != nil {
+			return
+		}
+	}
 	// a newcomer joins and stays (second witness)
 	en.n = dial()
 	var jr *hagallpb.ParticipantJoinResponse
@@ -263,6 +298,15 @@ func (en *stepEnv) interfere(victim string) (err error) {
 	if victim == "join" {
 		en.x.Close()
 		departed(en.x, "the extra member")
+	}
+	if strings.HasSuffix(victim, "-vs-delete") {
+		if _, err = en.o.DeleteEntity(en.eO); err != nil {
+			return
+		}
+	}
+	if strings.HasSuffix(victim, "-vs-leave") {
+		en.o.Close()
+		departed(en.o, "the owner")
 	}
 	if victim == "switch" {
 		en.n2 = dial()
@@ -450,6 +494,8 @@ func StepRun(p *sut.Proc, c StepCase) (res *StepResult) {
 		gone[m], gone[w] = true, true
 	case "join":
 		gone[en.x] = true
+	case "compadd-vs-leave", "action-vs-leave":
+		gone[en.o] = true
 	}
 	barrierAll := func() {
 		for _, cl := range en.all() {
@@ -567,6 +613,25 @@ func StepRun(p *sut.Proc, c StepCase) (res *StepResult) {
 func (en *stepEnv) judgeSession(c StepCase, res *StepResult, snap *scen.Snapshot) {
 	v, w := en.v, en.w
 	server := stateFromProbe(snap)
+	// referential integrity of what a newcomer is handed
+	for k := range server.Comps {
+		if _, ok := server.Entities[k.Entity]; !ok {
+			res.Findings = append(res.Findings, sf([]string{"C12", "C01"}, "integrity/component-without-entity", c, "a probe is handed component (type %d, entity %d) but no entity %d", k.Type, k.Entity, k.Entity))
+		}
+	}
+	for k := range server.Actions {
+		if _, ok := server.Entities[k.Entity]; !ok {
+			res.Findings = append(res.Findings, sf([]string{"C16", "C01"}, "integrity/action-without-entity", c, "a probe is handed action (%d, %q) but no entity %d", k.Entity, k.Name, k.Entity))
+		}
+	}
+	for e := range server.Assets {
+		if _, ok := server.Entities[e]; !ok {
+			res.Findings = append(res.Findings, sf([]string{"C16", "C01"}, "integrity/asset-without-entity", c, "a probe is handed an asset instance on entity %d but no such entity", e))
+		}
+	}
+	if len(res.Findings) > 0 {
+		return
+	}
 	count := func(cl *scen.C) map[string]int {
 		n := map[string]int{}
 		for _, e := range cl.LogCopy() {
@@ -662,6 +727,27 @@ func (en *stepEnv) judgeSession(c StepCase, res *StepResult, snap *scen.Snapshot
 	if c.Victim == "join" {
 		departedChecks("the member that left while the victim was parked", en.x, 0, 0)
 	}
+	if strings.HasSuffix(c.Victim, "-vs-leave") {
+		departedChecks("the owner that left while the victim was attaching to its entity", en.o, en.eO, 0)
+	}
+	if strings.HasPrefix(c.Victim, "compadd-") || strings.HasPrefix(c.Victim, "action-") {
+		// the victim's request is answered exactly once
+		n := 0
+		for _, e := range v.LogCopy() {
+			switch x := e.M.(type) {
+			case *hagallpb.EntityComponentAddResponse, *vikjapb.EntityActionResponse:
+				n++
+			case *hagallpb.ErrorResponse:
+				if x.RequestId != 0 {
+					n++
+				}
+			}
+		}
+		// setup requests of the victim: none besides the join (answered with a join response)
+		if n != 1 {
+			res.Findings = append(res.Findings, sf([]string{"C04"}, "step/answer-exactly-once", c, "the victim's attach request got %d answers; its stream: %v", n, v.LogCopy()))
+		}
+	}
 	if c.Victim == "delete" {
 		if k := fmt.Sprint("entity-delete ", en.vNP); wn[k] != 1 {
 			res.Findings = append(res.Findings, sf([]string{"C02"}, "relay/not-exactly-once", c, "the witness received %d delete relays for the victim's deleted entity %d", wn[k], en.vNP))
@@ -675,7 +761,7 @@ func (en *stepEnv) judgeSession(c StepCase, res *StepResult, snap *scen.Snapshot
 		who string
 		c   *scen.C
 		sub []uint32
-	}{{"the witness", w, []uint32{en.t}}, {"the newcomer that joined while the victim was parked", en.n, nil}}
+	}{{"the witness", w, []uint32{en.t, en.t2}}, {"the newcomer that joined while the victim was parked", en.n, nil}}
 	if c.Victim == "join" || c.Victim == "switch" {
 		views = append(views, struct {
 			who string
